@@ -23,7 +23,7 @@ def main():
                 'text': sp.get('level_text') or sp.get('explanation', ''),
                 'design_ref': 'DESIGN.md section 5 (%s)' % pid,
             },
-            'level_note': sp.get('level_note') or 'trusted base: assumed std/alloc contracts on the Verus side (contracts/verus/prelude.rs), rustc derive semantics, tool soundness; bounded obligations (if any) are listed separately in the evidence and never counted as discharged',
+            'level_note': sp.get('level_note') or ((' | '.join(sp.get('trusted', [])) + ' | ') if sp.get('trusted') else '') + ('bounded obligations on the real library, labelled bounded and never counted as discharged: ' + ', '.join(b['kind'] for b in sp['bounded']) + ' | ' if sp.get('bounded') else '') + 'trusted base: assumed std/alloc contracts on the Verus side (contracts/verus/prelude.rs), rustc derive semantics, tool soundness; deferred (thorough-tier) obligations are listed in the evidence and never counted',
             'technique': sp.get('technique') or 'contract-based deductive verification: Verus (SMT) on the mechanically extracted real functions + Kani/CBMC function-level proofs on the real crate',
         })
     na = [{'property_id': k, 'reason': v} for k, v in sorted(props.NOT_APPLICABLE.items())]
